@@ -81,4 +81,18 @@ example :
     ((fsMount b!"/dev" b!"/t" b!"rbind" []).run.run wEx).2.kt.mnts.length = 3 :=
   ⟨rfl, rfl⟩
 
+/-- the numbering the correspondence relies on: a successful `fs.Mount` passes two fault
+    points for an rbind of /dev, /sys or /run and one otherwise -/
+theorem fsMount_passes_fault_points (w : World) (src tgt fstype opts : Bytes)
+    (hp : w.pretend = false) (hc : w.crashAt = none) (hf : w.faultAt = none)
+    (hok : ((fsMount src tgt fstype opts).run.run w).1 = .ok ()) :
+    ((fsMount src tgt fstype opts).run.run w).2.nops = w.nops +
+      (if src == b!"/dev" || src == b!"/sys" || src == b!"/run" then 2 else 1) := by
+  have h := extractBoth (fun w' => w' = w)
+    (fun _ w' => w'.nops = w.nops + (if src == b!"/dev" || src == b!"/sys" || src == b!"/run" then 2 else 1))
+    (fun _ w' => w.nops < w'.nops ∧ w'.nops ≤ w.nops + 2)
+    (fsMount src tgt fstype opts) (fsMount_fault_points w src tgt fstype opts hp hc hf) w rfl
+  rw [hok] at h
+  exact h
+
 end Lc.Props.C10
